@@ -33,6 +33,7 @@ def dispatch (op : String) (j : Lean.Json) : Lean.Json :=
   | "schema_valid" => Sebuf.Driver.opSchemaValid j
   | "oa_components" => Sebuf.Driver.opOaComponents j
   | "oa_names" => Sebuf.Driver.opOaNames j
+  | "oa_format" => Sebuf.Driver.opOaFormat j
   | "yaml11" => Sebuf.Driver.opYaml11 j
   | "oa_schema" => Sebuf.Driver.opOaSchema j
   | "ts_decls" => Sebuf.Driver.opTsDecls j
